@@ -10,6 +10,9 @@
 package main
 
 import (
+	"path/filepath"
+	"os"
+	"encoding/json"
 	"fmt"
 	"runtime"
 	"runtime/debug"
@@ -59,7 +62,9 @@ func main() {
 	debug.SetMemoryLimit(8 << 30)
 	var parts []*part
 	parts = append(parts, sequentialCases(run))
-	// parts = append(parts, concurrentCases(run))   // <- interleaving engine hooks in here
+	if p := concurrentCases(run); p != nil { // explored by checks/c13conc on the scheduler engine, just before
+		parts = append(parts, p)
+	}
 	finish(run, parts)
 }
 
@@ -147,4 +152,36 @@ func parallelConfigs(n int, deadline time.Time, fn func(i int)) (done int) {
 	}
 	wg.Wait()
 	return next
+}
+
+
+// concurrentCases folds in what the concurrent part (checks/c13conc, run by
+// run.sh immediately before this program) explored; its violations were
+// reported by that program itself.
+func concurrentCases(run *common.Run) *part {
+	b, err := os.ReadFile(filepath.Join(common.Root(), "evidence", "C13.conc.json"))
+	if err != nil {
+		return nil
+	}
+	var ev struct {
+		Tier     string         `json:"tier"`
+		Coverage map[string]any `json:"coverage"`
+		Assume   []string       `json:"assumptions"`
+	}
+	if json.Unmarshal(b, &ev) != nil || ev.Tier != run.Tier {
+		return nil
+	}
+	num := func(k string) int64 {
+		f, _ := ev.Coverage[k].(float64)
+		return int64(f)
+	}
+	ex, _ := ev.Coverage["exhaustive"].(bool)
+	p := &part{Name: "concurrent (2 selectors || 1 updater, scheduler engine)", States: num("states"), Transitions: num("transitions"),
+		Traces: num("executions"), Evaluations: num("executions"), NonTrivial: num("distinct_nontrivial"), Exhaustive: ex,
+		Rule: "every interleaving (fingerprint-pruned, unbounded) of two selecting goroutines and one updater on the instrumented selector packages; all random draws enumerated",
+		Bounds: map[string]any{"per_scenario": ev.Coverage["per_scenario"]}, Assumptions: ev.Assume}
+	if s, ok := ev.Coverage["samples"].([]any); ok {
+		p.Samples = s
+	}
+	return p
 }
